@@ -225,9 +225,12 @@ func Select(cfg LookupCfg, routes []LRoute, host string, tls bool, uri string) (
 
 func pathLen(matcher, p string) int {
 	if matcher == "glob" {
-		// patterns generated for the oracle are literal prefixes followed by one '*':
+		// patterns generated for the oracle are literal prefixes followed by a wildcard part:
 		// the longer literal prefix is the more specific one
-		return len(strings.TrimSuffix(p, "*"))
+		if i := strings.IndexAny(p, "*?[{"); i >= 0 {
+			return i
+		}
+		return len(p)
 	}
 	return len(p)
 }
